@@ -52,7 +52,14 @@ def cases_for(tier, rng):
         base = rng.choice([root, root[:-1], root + (rng.randrange(5),), (mib[rng.randrange(len(mib))][:-1] if mib else root), (1, 3, 6)])
         mr, cap = rng.choice(params)
         out.append({"mib": mib, "base": base, "op": rng.choice(["getnext", "getbulk", "fetch"]), "mr": mr, "cap": cap})
-    return out
+    # histories on one session (each needs a short real timeout, so they are few)
+    extra = []
+    for k, c in enumerate(out):
+        if k % 23 == 0 and len(c["mib"]) >= 3:
+            extra.append(dict(c, history="abandon"))
+        if k % (97 if tier == "quick" else 41) == 1 and len(c["mib"]) >= 2:
+            extra.append(dict(c, history="retry"))
+    return out + extra
 
 
 def worker(job):
@@ -69,6 +76,9 @@ def worker(job):
                 st["agent_err"] = req.err
                 return None
             st["n"] += 1
+            if st.get("drop_at") == st["n"]:
+                st["dropped"] = True
+                return None  # this datagram is lost; the caller retries next() on the same iterator
             return mibagent.answer(st["mib"], req, agent, st["cap"])
         return agent.discovery_or(req, f)
     agent = rigp.Agent(handler, users=[cfg.user_keys()]).start()
@@ -77,7 +87,7 @@ def worker(job):
     def get_drv(allow_bulk, mr):
         key = (allow_bulk, mr)
         if key not in drvs:
-            d = driver.Driver(cfg, agent, timeout=1.5, allow_bulk=allow_bulk, max_repetitions=mr).create()
+            d = driver.Driver(cfg, agent, timeout=0.4, allow_bulk=allow_bulk, max_repetitions=mr).create()
             st.update(mib=mibagent.Mib([]), cap=None, n=0)
             d.call("open")
             drvs[key] = d
@@ -96,25 +106,41 @@ def worker(job):
             op = "getnext"
         allow_bulk = True if op != "fetch" else rng.random() < 0.7
         drv = get_drv(allow_bulk, c["mr"])
-        st.update(mib=mib, cap=c["cap"], n=0)
+        st.update(mib=mib, cap=c["cap"], n=0, drop_at=None, dropped=False)
         base = tuple(c["base"])
         args = (B.oid_text(base),) if op != "getbulk" else (B.oid_text(base), c["mr"])
-        out = drv.call(op, *args, limit=400)
+        hist = c.get("history")
+        if hist == "abandon":
+            # an earlier walk on the same session is left after one item (break): it must not leak into this one
+            other = rng.choice([(1, 3, 6, 1, 4, 1, 9), (1, 3, 6, 1, 4, 1, 9, 2), (1, 3)])
+            drv.call(op, *((B.oid_text(other),) + args[1:]), limit=1)
+            if rng.random() < 0.5:
+                drv.call(op, *args, limit=1)   # the same base, abandoned, then walked again
+            st["n"] = 0
+        call_op = op
+        if hist == "retry":
+            st["drop_at"] = rng.choice([1, 2, 2, 3])
+            call_op = op + "_retry"
+        out = drv.call(call_op, *args, limit=400)
         res["walks"] += 1
         res["requests"] += st["n"]
         want = [(B.oid_text(e[0]), e[2]) for e in mib.subtree(base)]
         res["entries"] += len(want)
-        cls = "%s:%s:%s" % (op, "empty" if not want else "nonempty", "bulk" if (op == "getbulk" or (op == "fetch" and allow_bulk and cfg.version != "v1")) else "next")
+        cls = "%s%s:%s:%s" % (op, ("+" + hist) if hist else "", "empty" if not want else "nonempty", "bulk" if (op == "getbulk" or (op == "fetch" and allow_bulk and cfg.version != "v1")) else "next")
         res["classes"][cls] = res["classes"].get(cls, 0) + 1
         if "agent_err" in st:
             res["inconclusive"].append("agent could not parse: %s" % st.pop("agent_err"))
             continue
         if out[0] == "exc" and out[1]["cls"] == "TimeoutError":
-            res["inconclusive"].append("timeout (load)")
+            res["inconclusive"].append("timeout (load)%s" % (" in a retry history" if hist == "retry" else ""))
             for d in drvs.values():
                 d.close()
             drvs.clear()
             continue
+        if len(res.setdefault("samples", [])) < 2 and ci % 40 == 3:
+            res["samples"].append({"cfg": cfg.key(), "op": op, "base": B.oid_text(base), "max_repetitions": c["mr"], "agent_cap": c["cap"],
+                                   "mib": [B.oid_text(o) for o in c["mib"]][:12], "requests": st["n"],
+                                   "returned": [g[0] if isinstance(g, tuple) else g for g in (out[1] if out[0] == "ok" else [repr(out)[:80]])][:12]})
         good = out[0] == "ok" and len(out[1]) == len(want) and all(g[0] == w[0] and M.same_value(w[1], g[1]) for g, w in zip(out[1], want))
         if not good and len(res["bad"]) < 60:
             got = out[1] if out[0] == "ok" else out
@@ -145,7 +171,6 @@ def main():
     jobs = [{"seed": a.seed * 31 + j, "cfg": cfgs[j % len(cfgs)].to_json(), "cases": cases[j::nj]} for j in range(nj)]
     # the same (MIB, base) also goes to a second configuration: equality across versions/clients follows from equality with the model
     jobs += [{"seed": a.seed * 31 + 100 + j, "cfg": cfgs[(j + 5) % len(cfgs)].to_json(), "cases": cases[j::nj][:len(cases) // (nj * 3)]} for j in range(nj)]
-    chk.sample({"mib": ["...9.2", "...9.2.1", "...9.2.129", "...9.20"], "base": "...9.2", "expected": ["...9.2.1", "...9.2.129"]})
     outs = runner.run_workers("checks.c05", "worker", jobs, variant="rel", timeout=3000)
     st = {"walks": 0, "entries": 0, "requests": 0}
     for o in outs:
@@ -163,6 +188,8 @@ def main():
             chk.inconc(x)
         for k in st:
             st[k] += res[k]
+        for x in res.get("samples", [])[:1]:
+            chk.sample(x, limit=5)
         for c in res["classes"]:
             chk.distinct.add("%s|%s" % (cfgkey, c))
         for b in res["bad"]:
